@@ -33,7 +33,7 @@ class Divergence(Exception):
 
 def _on_line(code, line):
     ts = getattr(_tls, 'ts', None)
-    if ts is not None:
+    if ts is not None and ts.sched.line_points:
         ts.sched.point(line)
 
 
@@ -120,6 +120,7 @@ class Sched:
         self.lock_holders = {}
         self.points = 0
         self.dbg = None
+        self.line_points = True       # False: only shim operations are scheduling points (see C02 'own object')
 
     # ------------------------------------------------------------------ threads
     def spawn(self, fn, name=None):
